@@ -427,7 +427,8 @@ func decode(thread *starlark.Thread, b *starlark.Builtin, args starlark.Tuple, k
 					closed = true
 					j++ // skip '"'
 					break
-				} else if b >= utf8.RuneSelf {
+				} else if b >= utf8.RuneSelf || b < 0x20 {
+					// (json.Unmarshal rejects raw control characters)
 					safe = false
 				}
 			}
